@@ -127,15 +127,22 @@ def run(R):
         _check_info(R, scale_stats, info, real=None)
 
     # ------------------------------------------------------------ really converted datasets
-    n_real = 5 if quick else 40
+    n_real = 9 if quick else 60
     for i in range(n_real):
         shape = [rng.randrange(1, 14) for _ in range(3)]
         dt = rng.choice(["uint8", "uint16", "float32"])
         arr = (np.arange(int(np.prod(shape))) % 251).astype(dt).reshape(shape)
+        # anisotropic voxels give anisotropic chunk sizes (a chunk grid that differs per axis)
+        vox = rng.choice([(1.0, 1.0, 1.0), (1.0, 2.0, 1.0), (1.0, 1.0, 2.0), (2.0, 1.0, 1.0), (1.0, 4.0, 2.0)])
+        if i == 0:
+            shape = [5, 13, 5]
+            arr = (np.arange(int(np.prod(shape))) % 251).astype(dt).reshape(shape)
+            vox = (1.0, 2.0, 1.0)           # chunk size along y smaller than along z
+        damage = i % 3 == 1
         d = os.path.join(R.tmp, f"ds{i}")
         os.makedirs(d)
         nii = os.path.join(d, "v.nii")
-        pipeline.write_nifti(nii, arr)
+        pipeline.write_nifti(nii, arr, affine=np.diag(list(vox) + [1.0]))
         # every dataset of the run is produced at the SAME path (removed in between): the statistics must be
         # those of the dataset that is there now, not of one seen earlier in this process
         out = os.path.join(R.tmp, "real-out")
@@ -149,6 +156,17 @@ def run(R):
                  ("compute_scales", [out] + opts)]
         ok = True
         for name, args in steps:
+            if name == "compute_scales" and damage:
+                # one chunk of the full-resolution scale cut short: compute-scales must fail, or else the
+                # statistics below must still match what is really there
+                key0 = json.load(open(os.path.join(out, "info")))["scales"][0]["key"]
+                files0 = sorted(os.path.join(r_, f_) for r_, _d, fs in os.walk(os.path.join(out, key0)) for f_ in fs)
+                if files0 and len(json.load(open(os.path.join(out, "info")))["scales"]) > 1:
+                    with open(files0[-1], "r+b") as fh:
+                        fh.truncate(max(1, os.path.getsize(files0[-1]) // 2))
+                    R.count("real:source-chunk-truncated")
+                else:
+                    damage = False
             rc, so, se = pipeline.run_script(name, args, inprocess=True)
             if rc != 0:
                 ok = False
@@ -156,14 +174,72 @@ def run(R):
                 break
         if not ok:
             continue
+        if damage:
+            # compute-scales exited 0 on a truncated source chunk: the lower scales must be complete all the same
+            info_d = json.load(open(os.path.join(out, "info")))
+            for s_ in info_d["scales"][1:]:
+                have = pipeline.count_grid_files(out, s_["key"], s_["size"], s_["chunk_sizes"][0])
+                want = len(pipeline.chunk_grid(s_["size"], s_["chunk_sizes"][0]))
+                if have != want:
+                    R.violation("compute-scales exited 0 on an unreadable source chunk and scale-stats counts chunks "
+                                "that were never written", {"scale": s_["key"]}, {"reported": want, "files": have})
+            continue
         info = json.load(open(os.path.join(out, "info")))
         real = {}
         pio = pipeline.fresh_io(out)
+        unreadable = None
         for s in info["scales"]:
-            _vol, _n, nbytes = pipeline.read_scale(pio, s, info["num_channels"], np.dtype(info["data_type"]))
-            real[s["key"]] = (pipeline.count_chunk_files(out, s["key"]), nbytes)
+            try:
+                _vol, _n, nbytes = pipeline.read_scale(pio, s, info["num_channels"], np.dtype(info["data_type"]))
+            except Exception as e:  # noqa: BLE001
+                unreadable = (s, f"{type(e).__name__}: {e}"[:200])
+                break
+            real[s["key"]] = (pipeline.count_grid_files(out, s["key"], s["size"], s["chunk_sizes"][0]), nbytes)
+        if unreadable:
+            s_, why = unreadable
+            have = pipeline.count_grid_files(out, s_["key"], s_["size"], s_["chunk_sizes"][0])
+            R.violation("every command exited 0 but the chunks that scale-stats counts are not all there",
+                        {"shape": shape, "voxel_size": list(vox), "scale": s_["key"], "chunk_size": s_["chunk_sizes"][0]},
+                        {"reported": len(pipeline.chunk_grid(s_["size"], s_["chunk_sizes"][0])), "files": have,
+                         "error": why})
+            continue
         _check_info(R, scale_stats, info, real=real, via_cmd=out)
         R.count("real:ok")
+        # the same dataset converted into a destination whose first scale lists a SECOND chunk size: every
+        # chunking that scale-stats counts must really be on disk
+        if i % 2 == 0:
+            out2 = os.path.join(R.tmp, "real-out2")
+            shutil.rmtree(out2, ignore_errors=True)
+            info2 = json.loads(json.dumps(info))
+            cs0 = info2["scales"][0]["chunk_sizes"][0]
+            extra = [max(1, c // 2) if k == i % 3 else c * 2 for k, c in enumerate(cs0)]
+            info2["scales"][0]["chunk_sizes"].append(extra)
+            # the source gets the second chunking too (written through the I/O layer), then it is converted
+            vol0 = pipeline.read_scale(pio, info["scales"][0], info["num_channels"], np.dtype(info["data_type"]))[0]
+            with open(os.path.join(out, "info"), "w") as f:
+                json.dump(info2, f)
+            pio2 = pipeline.fresh_io(out, {"flat": flat, "gzip": "--no-gzip" not in opts})
+            for (x0, x1, y0, y1, z0, z1) in pipeline.chunk_grid(info2["scales"][0]["size"], extra):
+                pio2.write_chunk(np.ascontiguousarray(vol0[:, z0:z1, y0:y1, x0:x1]), info2["scales"][0]["key"],
+                                 (x0, x1, y0, y1, z0, z1))
+            rc, so, se = pipeline.run_script("convert_chunks", [out, out2, "--copy-info"] + opts, inprocess=True)
+            R.count("real:two-chunk-sizes:" + ("converted" if rc == 0 else "convert-failed"))
+            if rc == 0:
+                buf = io.StringIO()
+                with contextlib.redirect_stdout(buf), np.errstate(all="ignore"):
+                    scale_stats.main(["scale-stats", out2])
+                rows = [LINE.match(ln) for ln in buf.getvalue().splitlines() if ln.startswith("Scale ")]
+                grids = [(s_, cs_) for s_ in info2["scales"] for cs_ in s_["chunk_sizes"]]
+                if len(rows) != len(grids) or not all(rows):
+                    R.violation("scale-stats output not parseable (two chunk sizes)", {"info": info2}, {})
+                else:
+                    for row, (s_, cs_) in zip(rows, grids):
+                        rep = int(row.group(6).replace(",", ""))
+                        have = pipeline.count_grid_files(out2, s_["key"], s_["size"], cs_)
+                        if rep != have:
+                            R.violation("reported chunk count differs from the files really written (scale with "
+                                        "several chunk sizes)", {"scale": s_["key"], "chunk_size": cs_,
+                                                                 "size": s_["size"]}, {"reported": rep, "files": have})
 
 
 def _value_of(text):
